@@ -306,6 +306,11 @@ impl IsoDate {
         day: u8,
         overflow: ArithmeticOverflow,
     ) -> TemporalResult<Self> {
+        // NOTE: No valid date, year-month or month-day lies outside of these years; the leap year
+        // and epoch day equations below are only defined (and overflow free) around that range.
+        if !(-271_821..=275_760).contains(&year) {
+            return Err(TemporalError::range().with_message("year is not within the valid range."));
+        }
         match overflow {
             ArithmeticOverflow::Constrain => {
                 let month = month.clamp(1, 12);
